@@ -20,10 +20,17 @@ PendingTok(st, id) == {k \in DOMAIN st : st[k].id = id /\ st[k].status = "pendin
 PendingIdsOf(st)   == {st[k].id : k \in {j \in DOMAIN st : st[j].status = "pending"}}
 Set(st, k, v)      == [x \in DOMAIN st \cup {k} |-> IF x = k THEN v ELSE st[x]]
 
-\* ApplyReq(o, st) = [res, st]
-ApplyReq(o, st) ==
+\* ApplyReq(o, st, impl) = [res, st]
+\* A make request for an id that is pending is not accepted.  mcrew answers "id exists".
+\* SioMakeOnPendingCancels (named deviation of the single-loop crew, whose requests have no
+\* reply): there the request is not accepted either, and it cancels the pending timer.
+ApplyReq(o, st, impl) ==
   IF o.kind = "add" THEN
-       IF PendingTok(st, o.id) # {} THEN [res |-> "exists", st |-> st]
+       IF PendingTok(st, o.id) # {} THEN
+            IF impl = "sio"
+            THEN LET k == CHOOSE x \in PendingTok(st, o.id) : TRUE IN
+                 [res |-> "ok", st |-> Set(st, k, [st[k] EXCEPT !.status = "cancelled"])]
+            ELSE [res |-> "exists", st |-> st]
        ELSE [res |-> "ok", st |-> Set(st, o.op, [id |-> o.id, status |-> "pending", d |-> o.d, t |-> o.t])]
   ELSE IF PendingTok(st, o.id) = {} THEN [res |-> "notfound", st |-> st]
        ELSE LET k == CHOOSE x \in PendingTok(st, o.id) : TRUE IN
